@@ -133,22 +133,11 @@ def judge(cases: list[dict], run: Run, shards: int = 8, label: str = "Fmt_Trace"
     tmp = Path(tempfile.mkdtemp(prefix="fmt-", dir=tlc.WORK))
     try:
         judged = [c for c in cases if "out" in c["r"]]
-        shards = max(1, min(shards, len(judged) // 200 + 1))
-        files = []
         all_lines = pmap("harness.engines.layout", "case_line_job",
                          [{"id": c["id"], "text": c["text"], "r": c["r"]} for c in judged], chunk=400)
-        for s in range(shards):
-            f = tmp / f"shard{s}.ndjson"
-            with f.open("w") as fh:
-                for ln in all_lines[s::shards]:
-                    fh.write(ln + "\n")
-            files.append(f)
-
-        def one(f, cfg="Fmt_Trace.cfg"):
-            return tlc.must_ok(tlc.run("Fmt_Trace", cfg, workers=1, env={"TRACE_FILE": str(f)}, timeout=3600),
-                               f"{label} {f.name}")
-        with ThreadPoolExecutor(max_workers=shards) as ex:
-            results = list(ex.map(one, files))
+        results = tlc.run_sharded("Fmt_Trace", "Fmt_Trace.cfg", all_lines, what=label, per_shard=15000,
+                                  min_shards=max(1, min(shards, len(judged) // 200 + 1)))
+        shards = len(results)
         verdicts: dict[int, dict] = {}
         for res in results:
             run.add_model(res)
